@@ -349,6 +349,8 @@ func checkC19(p *core.Program, r *core.Report) {
 	r.Rule("R3", "positive direction: on the non-redacting edge withoutQuery passes scheme, path and display to urns.NewFromParts (only the query is dropped)")
 	r.Rule("R4", "the policy in force is the session's current one: session.MergedEnvironment (the environment every template is evaluated under) returns a wrapper built by flows.NewSessionEnvironment on that call; if it returns a value kept in a session field instead, every function that writes session.env also writes that field")
 	c19R4(p, r)
+	r.Rule("R6", "no decision is taken on the hidden part: in the methods of Contact, URNList and ContactURN (package flows) — which choose the URNs, the preferred URN and channel and the destinations the context then shows — no branch condition is computed from the identifying part of a URN (a result of the urns API other than the scheme, ContactURN.URN()/String()), unless the branch lies on the non-redacting edge of the policy test or is listed: which masked value is shown must not tell what the mask hides")
+	c19R6(p, r)
 	r.Rule("R5", "a changed policy is a changed environment: environment.Equal, which decides whether a resume's environment replaces the session's, compares the marshalled form of both or reads the redaction policy of both")
 	c19R5(p, r)
 	r.Assumption("values that reach the context from outside the engine (trigger params, webhook responses, message text) are data, not URN-typed")
@@ -803,4 +805,113 @@ func c19UnderNonEmptyFromUnredacted(b *ssa.BasicBlock) bool {
 		}
 	}
 	return false
+}
+
+// ---------------------------------------------------------------------------------------------- R6
+
+// c19BranchAllowed: branches on URN content in those methods that the property allows. key as reported.
+var c19BranchAllowed = map[string]string{}
+
+func c19R6(p *core.Program, r *core.Report) {
+	n := 0
+	// what the context shows of a contact is computed by the Context / ToXValue / MapContext / Format methods of
+	// package flows and whatever they call, directly or through the lazy closures they hand out
+	reach := map[*ssa.Function]bool{}
+	var visit func(fn *ssa.Function)
+	visit = func(fn *ssa.Function) {
+		if fn == nil || reach[fn] || len(fn.Blocks) == 0 || core.RelPkg(core.FuncPkgPath(fn)) != "flows" {
+			return
+		}
+		reach[fn] = true
+		for _, an := range fn.AnonFuncs {
+			visit(an)
+		}
+		core.EachInstr(fn, false, func(_ *ssa.Function, in ssa.Instruction) {
+			switch x := in.(type) {
+			case ssa.CallInstruction:
+				visit(x.Common().StaticCallee())
+			case *ssa.MakeClosure:
+				if f, ok := x.Fn.(*ssa.Function); ok {
+					visit(f)
+				}
+			}
+		})
+	}
+	nRoots := 0
+	for _, fn := range p.ModuleFunctions() {
+		if core.RelPkg(core.FuncPkgPath(fn)) != "flows" || p.IsTestFile(fn.Pos()) || fn.Signature.Recv() == nil {
+			continue
+		}
+		rt := fn.Signature.Recv().Type()
+		if pt, ok := rt.(*types.Pointer); ok {
+			rt = pt.Elem()
+		}
+		nt, ok := rt.(*types.Named)
+		if !ok || (nt.Obj().Name() != "Contact" && nt.Obj().Name() != "URNList" && nt.Obj().Name() != "ContactURN") {
+			continue
+		}
+		switch fn.Name() {
+		case "Context", "ToXValue", "MapContext", "Format":
+			nRoots++
+			visit(fn)
+		}
+	}
+	r.Require("context_roots_of_contact_and_urns", nRoots, 4)
+	var fns []*ssa.Function
+	for _, fn := range p.ModuleFunctions() {
+		if reach[fn] {
+			fns = append(fns, fn)
+		}
+	}
+	for fn := range reach {
+		if fn.Parent() != nil || fn.Synthetic != "" {
+			found := false
+			for _, g := range fns {
+				if g == fn {
+					found = true
+				}
+			}
+			if !found {
+				fns = append(fns, fn)
+			}
+		}
+	}
+	sort.SliceStable(fns, func(i, j int) bool { return core.FuncName(fns[i]) < core.FuncName(fns[j]) })
+	for _, fn := range fns {
+		ord := 0
+		core.EachInstr(fn, false, func(_ *ssa.Function, in ssa.Instruction) {
+			iff, ok := in.(*ssa.If)
+			if !ok {
+				return
+			}
+			n++
+			t, why := urnTaint(iff.Cond)
+			if !t {
+				return
+			}
+			ord++
+			key := fmt.Sprintf("%s/branch-on-urn#%d", core.FuncName(fn), ord)
+			if policyEdge(iff.Block()) == -1 {
+				r.OK("R6", key, p.Pos(condPos(iff)), "on the non-redacting edge of the policy test")
+				return
+			}
+			if reason, ok := c19BranchAllowed[key]; ok {
+				r.OK("R6", key, p.Pos(condPos(iff)), "listed: "+reason)
+				return
+			}
+			r.Bad("R6", key, p.Pos(condPos(iff)), "a branch of "+fn.Name()+" is decided by "+why+": what the context shows (which URN, channel or destination) then depends on the part of the URN that redaction hides")
+		})
+	}
+	r.Count("branches_in_context_methods", n)
+	r.Require("branches_in_context_methods", n, 10)
+}
+
+func condPos(iff *ssa.If) token.Pos {
+	if iff.Cond.Pos().IsValid() {
+		return iff.Cond.Pos()
+	}
+	if c, ok := iff.Cond.(*ssa.BinOp); ok && c.X.Pos().IsValid() {
+		return c.X.Pos()
+	}
+	return iff.Parent().Pos()
 }
